@@ -80,7 +80,7 @@ func sameFloat(a float64, b float64) bool { return a == b || (a != a && b != b) 
     except expression, infixHelper
     serves C09
     assume-safety
-    assumepre expression, infixHelper, IndexValue
+    assumepre expression, infixHelper, IndexValue, IsEqual
     dyncall-preserves self.callStackSize, self.callStackLimitSize
     ensures @depth-balanced self.callStackSize == old(self.callStackSize) && self.callStackLimitSize == old(self.callStackLimitSize)
     loopinvariant self.callStackSize == entry(self.callStackSize) && self.callStackLimitSize == entry(self.callStackLimitSize)
@@ -109,6 +109,7 @@ func sameFloat(a float64, b float64) bool { return a == b || (a != a && b != b) 
 /*@ func (self *Interpreter) infixHelper
     serves C02, C04
     wrap int64
+    assumepre IsEqual
     requires lhs != nil && rhs != nil && infixAdmissible(operator, lhs.Type(), rhs.Type())
     ensures @result i == nil ==> res != nil && *res != nil
     ensures @depth-balanced self.callStackSize == old(self.callStackSize) && self.callStackLimitSize == old(self.callStackLimitSize)
